@@ -13,6 +13,7 @@ static const char *OPN[] = {"create", "create_fail", "destroy", "destroy_dead", 
                             "decode_badhdr", "badargs", "meta", "encode_thread", "recon"};
 enum { MODE_C14 = 14, MODE_C15 = 15, MODE_C16 = 16 };
 static const int NSLOTS = 4;
+static bool g_explicit_lsan = true;     // the libFuzzer target switches to libFuzzer's own leak detection
 
 // ------------------------------------------------------------------ guard-page placement (C15)
 struct Guarded {
@@ -412,7 +413,7 @@ static Result run_history(const Case &c, int mode) {
     // tear down
     for (auto &s : w.slot) if (s.live) { if (liberasurecode_instance_destroy(s.desc) != 0) r.fail("final destroy failed"); s.live = false; s.s = Stripe(); }
     for (auto &s : w.slot) s.s = Stripe();
-    if (mode == MODE_C16 && r.ok) {
+    if (mode == MODE_C16 && r.ok && g_explicit_lsan) {
         if (__lsan_do_recoverable_leak_check() != 0 && (r.fatal = true)) r.fail("LeakSanitizer: memory still allocated after the history and destruction of all instances");
     }
     for (auto &p : w.counts) r.cls("op_" + p.first);
@@ -507,6 +508,7 @@ static void sweep_c16() {
     stats().exhaustive = true;
 }
 
+#ifndef HARNESS_NO_MAIN
 int main(int argc, char **argv) {
     Harness h;
     h.prop = "C14";
@@ -517,3 +519,4 @@ int main(int argc, char **argv) {
     h.mode("c16_pairs", sweep_c16, run_c16_pair);
     return harness_main(argc, argv, h);
 }
+#endif
